@@ -7,7 +7,7 @@ cd /repo && git apply "$S/patch.diff" || { echo "patch failed"; exit 3; }
 cd /verif
 for p in $PROPS; do
   ./check $p > /tmp/try_seed_$$.log 2>&1; rc=$?
-  echo "== $(basename $S) check $p exit=$rc"; grep -E "VIOLATION|UNDECIDED|CHECKER|KNOWN" /tmp/try_seed_$$.log | cut -c1-260 | head -8
+  echo "== $(basename $S) check $p exit=$rc"; grep -E "VIOLATION|UNDECIDED|CHECKER" /tmp/try_seed_$$.log | cut -c1-300 | head -8; grep -c KNOWN-FINDING /tmp/try_seed_$$.log
 done
 rm -f /tmp/try_seed_$$.log
 git -C /repo checkout -- . 
